@@ -34,6 +34,7 @@ type plainPayload struct {
 	ID     string `class:"public"`
 	Secret string `class:"secret"`
 	Sens   string `class:"sensitive"`
+	Hm     string `class:"sensitive,hmac-sha256"`
 	Pub    string `class:"public"`
 	N      int
 }
@@ -74,8 +75,11 @@ type sinkInfo struct {
 	buf          *lockedBuf
 	ch           chan *eventlogger.Event
 	got          sync.Map // channel: event id -> *int64
+	memMu        sync.Mutex
+	members      [][]string // channel: members of every composite received
 	fs           *eventlogger.FileSink
 	afterEncrypt bool // every pipeline feeding this sink has the encrypt filter before its formatter
+	encLayers    map[int]bool // numbers of encrypt filters in the pipelines feeding this sink
 }
 
 type composition struct {
@@ -86,14 +90,22 @@ type composition struct {
 	files []*eventlogger.FileSink
 	desc  []string
 	keys  [][]byte
+	cfgs  []hcfg // (wrapper key, salt) pairs ever installed as a whole
 	keyMu sync.Mutex
 	pairs map[string]bool
 	tmp   string
+	// the two sinks that receive composites (flush events down pg, expired/closed groups through pc)
+	gatedSinks []*sinkInfo
 }
 
-func (c *composition) addKey(k []byte) {
+type hcfg struct {
+	key, salt []byte
+}
+
+func (c *composition) addKey(k []byte, salt string) {
 	c.keyMu.Lock()
 	c.keys = append(c.keys, k)
+	c.cfgs = append(c.cfgs, hcfg{k, []byte(salt)})
 	c.keyMu.Unlock()
 }
 
@@ -112,7 +124,7 @@ func build(r *rt.Rand, tmp string) *composition {
 	reg := func(id string, n eventlogger.Node) { must(b.RegisterNode(eventlogger.NodeID(id), n)) }
 	// node pool
 	k0 := r.Bytes(32)
-	c.addKey(k0)
+	c.addKey(k0, "s0")
 	pool := map[string][]string{}
 	for i := 0; i < 2; i++ {
 		id := fmt.Sprintf("filter-%d", i)
@@ -142,7 +154,7 @@ func build(r *rt.Rand, tmp string) *composition {
 	newSink := func(format string) *sinkInfo {
 		n := len(c.sinks)
 		kind := rt.Pick(r, []string{"file", "writer", "channel", "file"})
-		s := &sinkInfo{id: fmt.Sprintf("%s-%d", kind+"sink", n), kind: kind, format: format, afterEncrypt: true}
+		s := &sinkInfo{id: fmt.Sprintf("%s-%d", kind+"sink", n), kind: kind, format: format, afterEncrypt: true, encLayers: map[int]bool{}}
 		switch kind {
 		case "file":
 			s.dir = filepath.Join(tmp, fmt.Sprintf("sink%d", n))
@@ -167,12 +179,14 @@ func build(r *rt.Rand, tmp string) *composition {
 		var ids []string
 		nf := r.Range(0, 3)
 		hasEnc := false
+		nenc := 0
 		for i := 0; i < nf; i++ {
 			k := rt.Pick(r, []string{"filter", "encrypt", "encrypt"})
 			id := rt.Pick(r, pool[k])
 			ids = append(ids, id)
 			if k == "encrypt" {
 				hasEnc = true
+				nenc++
 			}
 		}
 		// formatter section: one or two formatter-ish nodes; the last decides the sink's format
@@ -221,6 +235,7 @@ func build(r *rt.Rand, tmp string) *composition {
 				s.afterEncrypt = false
 			}
 		}
+		s.encLayers[nenc] = true
 		ids = append(ids, s.id)
 		must(b.RegisterPipeline(eventlogger.Pipeline{PipelineID: eventlogger.PipelineID(fmt.Sprintf("p%d", p)), EventType: "plain", NodeIDs: toIDs(ids)}))
 		c.desc = append(c.desc, fmt.Sprintf("plain/p%d: %v", p, ids))
@@ -229,13 +244,17 @@ func build(r *rt.Rand, tmp string) *composition {
 		}
 	}
 	// gated pipeline
-	gf := &gated.Filter{Broker: b, Expiration: time.Hour}
+	// expiry during the concurrent sends in two thirds of the compositions (real clock; no verdict depends on it)
+	gf := &gated.Filter{Broker: b, Expiration: rt.Pick(r, []time.Duration{time.Hour, 150 * time.Microsecond, 2 * time.Millisecond})}
+	c.gatedSinks = []*sinkInfo{}
 	reg("gated-0", gf)
 	gs := newSink("json")
 	must(b.RegisterPipeline(eventlogger.Pipeline{PipelineID: "pg", EventType: "gated", NodeIDs: toIDs([]string{"gated-0", "jsonfmt-0", gs.id})}))
 	cs := newSink("json")
 	must(b.RegisterPipeline(eventlogger.Pipeline{PipelineID: "pc", EventType: "gated-composite", NodeIDs: toIDs([]string{"jsonff-0", cs.id})}))
 	gs.afterEncrypt, cs.afterEncrypt = false, false
+	c.gatedSinks = append(c.gatedSinks, gs, cs)
+	c.desc = append(c.desc, fmt.Sprintf("gated expiration %v", gf.Expiration))
 	c.desc = append(c.desc, fmt.Sprintf("gated/pg: [gated-0 jsonfmt-0 %s]", gs.id), fmt.Sprintf("gated-composite/pc: [jsonff-0 %s]", cs.id))
 	c.pairs["gated>jsonfmt"] = true
 	return c
@@ -320,6 +339,11 @@ func TestC19(t *testing.T) {
 						id = p.ID
 					case map[string]interface{}:
 						id, _ = p["ID"].(string)
+						if ms, ok := p["members"].([]string); ok {
+							s.memMu.Lock()
+							s.members = append(s.members, append([]string(nil), ms...))
+							s.memMu.Unlock()
+						}
 					}
 					v, _ := s.got.LoadOrStore(id, new(int64))
 					atomic.AddInt64(v.(*int64), 1)
@@ -360,6 +384,9 @@ func TestC19(t *testing.T) {
 		var stop int32
 		var sendErrs int64
 		canaries := make([][]string, nsend)
+		var gatedMu sync.Mutex
+		var gatedSent []string
+		var gatedTrouble int64
 		for s := 0; s < nsend; s++ {
 			wg.Add(1)
 			sr := cr.Fork()
@@ -373,13 +400,18 @@ func TestC19(t *testing.T) {
 						if err != nil {
 							atomic.AddInt64(&sendErrs, 1)
 						}
-						_ = st
+						if err != nil || len(st.Warnings) > 0 {
+							atomic.AddInt64(&gatedTrouble, 1)
+						}
+						gatedMu.Lock()
+						gatedSent = append(gatedSent, id)
+						gatedMu.Unlock()
 						continue
 					}
 					id := fmt.Sprintf("e%d-%d", s, n)
 					sec, sens := fmt.Sprintf("SECRETCANARY-%s-x", id), fmt.Sprintf("SENSCANARY-%s-x", id)
 					canaries[s] = append(canaries[s], sec, sens)
-					var payload interface{} = &plainPayload{ID: id, Secret: sec, Sens: sens, Pub: "pub-" + id, N: n}
+					var payload interface{} = &plainPayload{ID: id, Secret: sec, Sens: sens, Hm: fmt.Sprintf("HMCANARY-%s-x", id), Pub: "pub-" + id, N: n}
 					if sr.Intn(5) == 0 {
 						// a slice payload: the pipelines share its backing array unless a node copies it
 						payload = []*plainPayload{payload.(*plainPayload)}
@@ -417,7 +449,7 @@ func TestC19(t *testing.T) {
 		ctl(func(k int) {
 			key := rt.Mix(uint64(ci), uint64(k))
 			kb := rt.NewRand(key).Bytes(32)
-			c.addKey(kb)
+			c.addKey(kb, fmt.Sprintf("s%d", k))
 			for _, ef := range c.enc {
 				ef.Rotate(encrypt.WithWrapper(cryp.NewWrapper(kb, fmt.Sprintf("r%d", k))), encrypt.WithSalt([]byte(fmt.Sprintf("s%d", k))))
 			}
@@ -433,7 +465,7 @@ func TestC19(t *testing.T) {
 		ctl(func(k int) {
 			// in-band rotation payload: consumed by the encrypt filters, formatted and written elsewhere
 			kb := rt.NewRand(rt.Mix(uint64(ci)+7, uint64(k))).Bytes(32)
-			c.addKey(kb)
+			c.addKey(kb, "rs")
 			id := fmt.Sprintf("rot-%d", k)
 			st, _ := c.b.Send(ctx, "plain", &rotPayload{ID: id, w: cryp.NewWrapper(kb, id), salt: []byte("rs")})
 			note(st, id)
@@ -443,7 +475,9 @@ func TestC19(t *testing.T) {
 		atomic.StoreInt32(&stop, 1)
 		cwg.Wait()
 		// flush what the gated filter still holds, then stop the consumers
-		c.b.RemovePipelineAndNodes(ctx, "gated", "pg")
+		if _, err := c.b.RemovePipelineAndNodes(ctx, "gated", "pg"); err != nil {
+			atomic.AddInt64(&gatedTrouble, 1)
+		}
 		close(stopDrain)
 		dwg.Wait()
 
@@ -453,8 +487,13 @@ func TestC19(t *testing.T) {
 		}
 		c.keyMu.Lock()
 		keys := append([][]byte(nil), c.keys...)
+		hkeys := make([][]byte, len(c.cfgs))
+		for k, cf := range c.cfgs {
+			hkeys[k] = cryp.HmacKey(cf.key, cf.salt, nil)
+		}
 		c.keyMu.Unlock()
 		lines := 0
+		memberSeen := map[string]int{}
 		for sid, s := range c.sinks {
 			var data []byte
 			switch s.kind {
@@ -472,6 +511,13 @@ func TestC19(t *testing.T) {
 				data = append(data, s.buf.b.Bytes()...)
 				s.buf.mu.Unlock()
 			case "channel":
+				s.memMu.Lock()
+				for _, ms := range s.members {
+					for _, m := range ms {
+						memberSeen[m]++
+					}
+				}
+				s.memMu.Unlock()
 				exp := expect[sid]
 				s.got.Range(func(k, v any) bool {
 					id, n := k.(string), int(atomic.LoadInt64(v.(*int64)))
@@ -513,6 +559,43 @@ func TestC19(t *testing.T) {
 				}
 				id := extractID(doc, s.format)
 				got[id]++
+				if pm, ok := doc["payload"].(map[string]interface{}); ok {
+					if ms, ok := pm["members"].([]interface{}); ok {
+						for _, m := range ms {
+							memberSeen[fmt.Sprint(m)]++
+						}
+					}
+				}
+				if s.afterEncrypt {
+					// the digest must be the HMAC of the original under one (wrapper, salt) pair installed as a whole
+					var pl interface{} = doc["payload"]
+					if s.format != "json" {
+						pl = doc["data"]
+					}
+					if l, ok := pl.([]interface{}); ok && len(l) == 1 {
+						pl = l[0]
+					}
+					if p, ok := pl.(map[string]interface{}); ok {
+						if v, _ := p["Hm"].(string); strings.HasPrefix(v, cryp.HmacPrefix) && strings.HasPrefix(id, "e") {
+							orig := []byte(fmt.Sprintf("HMCANARY-%s-x", id))
+							match := false
+							for _, hk := range hkeys {
+								if cryp.HmacWithKey(hk, orig) == v {
+									match = true
+									break
+								}
+							}
+							switch {
+							case match:
+								run.Add("hmac_values_verified", 1)
+							case len(s.encLayers) == 1 && s.encLayers[1]:
+								run.Violation("history-pattern:torn-hmac-configuration", fmt.Sprintf("sink %s: the digest of %s is the HMAC of the original under none of the (wrapper, salt) pairs that were ever installed as a whole", sid, id), wit(v))
+							default:
+								run.Add("hmac_values_layered_not_judged", 1)
+							}
+						}
+					}
+				}
 				if s.afterEncrypt && bytes.Contains(ln, []byte("CANARY")) {
 					run.Violation("history-pattern:plaintext-after-encrypt", fmt.Sprintf("sink %s sits behind the encrypt filter but holds classified plaintext: %.160q", sid, ln), wit(""))
 					break
@@ -567,6 +650,18 @@ func TestC19(t *testing.T) {
 					}
 				}
 			}
+		}
+		// gated conservation: every gated event is a member of exactly one composite that reached a sink
+		if atomic.LoadInt64(&gatedTrouble) == 0 {
+			for _, id := range gatedSent {
+				if n := memberSeen[id]; n != 1 {
+					run.Violation("history-pattern:gated-member-count", fmt.Sprintf("gated event %s is a member of %d composites in the sinks' output (every Send succeeded without warnings, the filter was closed at the end)", id, n), wit(""))
+					break
+				}
+			}
+			run.Add("gated_members_checked", len(gatedSent))
+		} else {
+			run.Add("gated_conservation_not_judged", 1)
 		}
 		for p := range c.pairs {
 			run.SetAdd("neighbour_kind_pairs", p)
